@@ -2,6 +2,7 @@ import Afkak.Monitor.C04
 import AfkakProofs.Wire.Requests
 import AfkakProofs.Wire.ProduceReq
 import AfkakProofs.Wire.GroupPayloads
+import AfkakProofs.Wire.Glue
 import AfkakProps.Open.C04
 /-!
 # C04 — every request on the wire conforms to the Kafka protocol grammar
@@ -227,10 +228,12 @@ theorem C04_assignment_conforms : C04_assignment_conforms_stmt := by
     exact assignment_bytes h ha
 
 /-- **Per-partition order is preserved, nothing is lost or duplicated**: the Python grouping
-    (`defaultdict(dict)`) of payloads with distinct (topic, partition) keys is the protocol's nesting. -/
+    (`defaultdict(dict)`) of payloads that passes the encoders' guard (no payload was lost to a repeated
+    (topic, partition) key) is the protocol's nesting. -/
 theorem C04_order_preserved : C04_order_preserved_stmt := by
-  intro α topic partition xs l h
-  rw [group_eq_lifted topic partition xs l h, lifted_eq_regroup]
+  intro α topic partition xs l h hcnt
+  have hnd := keyed_nodup topic partition (fun x => some x) xs l h (payloadCount_eq_iff_nodup topic partition xs hcnt)
+  rw [group_eq_lifted topic partition xs l h hnd, lifted_eq_regroup]
 
 /-- **Checksums are valid, null is not empty, attributes and timestamps are kept**: every message the
     encoder emits is byte for byte the grammar's encoding of the caller's message, hence parses back
@@ -435,6 +438,69 @@ theorem C04_fallback_on_error_code :
   simp only [getApiVersion, fetchApiVersions, apiVersionAttempts, fetchLoop, hd, handleApiVersionUpdate]
   rfl
 
+/-! ## the glue of `KafkaClient.send_produce_request` / `send_fetch_request` -/
+
+/-- **The decoder applied to the reply is the decoder for the version written in the request header**,
+    for EVERY discovery state and EVERY outcome of the discovery (table in any order, error code, no
+    answer, already discovered, discovery disabled): whatever version `get_api_version` hands out,
+    * encoder and decoder are handed the same number (no decoder when `acks = 0`);
+    * the header of the request the encoder writes carries `clamp(version)` under key 0;
+    * the decoder, handed `version`, is the decoder of `clamp(version)`. -/
+theorem C04_glue_produce (st st' : ApiVersionsState) (attempts : List Attempt) (acks vEnc : Int) (vDec : Option Int)
+    (h : sendProduceVersions st attempts acks = some (.ok (st', vEnc, vDec))) :
+    (vDec = if acks = 0 then none else some vEnc)
+    ∧ getApiVersion st produceKey attempts = some (.ok (st', vEnc))
+    ∧ (∀ ext cid corr ps timeout frame, encodeProduceRequest ext cid corr ps acks timeout vEnc = .ok frame →
+        ∃ rest, Spec.header.dec frame = some (⟨0, (produceClamp vEnc).1, corr, some cid⟩, rest))
+    ∧ (∀ data, decodeProduceResponse data vEnc = decodeProduceResponse data (produceClamp vEnc).1) := by
+  unfold sendProduceVersions at h
+  have hk : glueProduceKey = produceKey := rfl
+  rw [hk] at h
+  cases hg : getApiVersion st produceKey attempts with
+  | none => simp [hg] at h
+  | some r =>
+    cases r with
+    | error e => simp [hg] at h
+    | ok p =>
+      obtain ⟨s2, v⟩ := p
+      simp only [hg, Option.some.injEq, Except.ok.injEq, Prod.mk.injEq] at h
+      obtain ⟨rfl, rfl, rfl⟩ := h
+      exact ⟨rfl, rfl, fun ext cid corr ps timeout frame hf => produce_header hf, fun data => decodeProduceResponse_clamp data v⟩
+
+/-- the same for Fetch (key 1) -/
+theorem C04_glue_fetch (st st' : ApiVersionsState) (attempts : List Attempt) (vEnc vDec : Int)
+    (h : sendFetchVersions st attempts = some (.ok (st', vEnc, vDec))) :
+    vDec = vEnc
+    ∧ getApiVersion st fetchKey attempts = some (.ok (st', vEnc))
+    ∧ (∀ cid corr ps wait minb frame, encodeFetchRequest cid corr ps wait minb vEnc = .ok frame →
+        ∃ rest, Spec.header.dec frame = some (⟨1, fetchClamp vEnc, corr, some cid⟩, rest))
+    ∧ (∀ ext depth data, decodeFetchResponse ext depth data vDec = decodeFetchResponse ext depth data (fetchClamp vEnc)) := by
+  unfold sendFetchVersions at h
+  have hk : glueFetchKey = fetchKey := rfl
+  rw [hk] at h
+  cases hg : getApiVersion st fetchKey attempts with
+  | none => simp [hg] at h
+  | some r =>
+    cases r with
+    | error e => simp [hg] at h
+    | ok p =>
+      obtain ⟨s2, v⟩ := p
+      simp only [hg, Option.some.injEq, Except.ok.injEq, Prod.mk.injEq] at h
+      obtain ⟨rfl, rfl, rfl⟩ := h
+      exact ⟨rfl, rfl, fun cid corr ps wait minb frame hf => fetch_header hf,
+        fun ext depth data => decodeFetchResponse_clamp ext depth data v⟩
+
+/-- every way a discovery can end: still waiting for an answer, the decoder's exception escaping
+    (the state stays undiscovered), the legacy fallback, or an advertised table -/
+theorem C04_discovery_outcomes (attempts : List Attempt) :
+    fetchApiVersions attempts = none ∨ (∃ e, fetchApiVersions attempts = some (.error e)) ∨
+    fetchApiVersions attempts = some (.ok .legacy) ∨ ∃ t, fetchApiVersions attempts = some (.ok (.table t)) :=
+  fetchLoop_outcomes _ attempts
+
+example : sendProduceVersions .undiscovered [.unavailable, .reply [0, 0, 0, 1, 0, 0, 0, 0, 0, 2, 0, 18, 0, 0, 0, 3, 0, 0, 0, 0, 0, 8]] 1
+    = some (.ok (.table [⟨18, 0, 3⟩, ⟨0, 0, 8⟩], 8, some 8)) := by decide +kernel
+example : sendFetchVersions .legacy [] = some (.ok (.legacy, 0, 0)) := by decide
+
 /-- Before the fix of F5 a table that was not in key order gave the wrong version; the lookup is by
     key: here the table lists ApiVersions first and Produce last. -/
 example : lookupVersion 0 (.table [⟨18, 0, 3⟩, ⟨1, 0, 11⟩, ⟨3, 0, 9⟩, ⟨0, 0, 8⟩]) = some 8 := by decide
@@ -462,6 +528,9 @@ C04_version_choice
 C04_version_choice_order
 C04_fallback_zero
 C04_fallback_on_error_code
+C04_glue_produce
+C04_glue_fetch
+C04_discovery_outcomes
 -/
 /- OPEN_STATEMENTS
 -/
